@@ -17,7 +17,7 @@ open Gallia Gallia.Proto Gallia.Loss
 
     S <tr> <maxRetry> <event>*
         whole execution (Model/LossSys.lean); events: D:<hex> deliver, X:<cut> cut, U up, N down, V:<hex>|V:none serve,
-        A:1|A:0 routing activation answered / lost, T:<ms> advance, R:<hex>:<tmo|none> request, C close, K reconnect
+        A:1|A:0 routing activation answered / lost, T:<ms> advance, R:<hex>:<tmo|none> request, Q:<tmo|none> transport read, C close, K reconnect
         -> one token per client call (req:<out>:<t_end>:<conns> | closed:<t> | rc:<res>:<t_end>:<conns>), then
            `wire` <conn>@<t>:<hex>,... and `refused` <n>
 
@@ -114,6 +114,7 @@ def parseSEv (tok : String) : Option SEv :=
   | ["R", h, t] => match parseHex h, parseOptNat t with
     | some d, some tmo => some (.request d tmo)
     | _, _ => none
+  | ["Q", t] => (parseOptNat t).map fun tmo => .read tmo
   | ["C"] => some .close
   | ["K"] => some .reconnect
   | _ => none
@@ -121,6 +122,7 @@ def parseSEv (tok : String) : Option SEv :=
 open Gallia.LossSys in
 def showObs : Obs → String
   | .req o _ t1 n => s!"req:{showOut o}:{t1}:{n}"
+  | .rd r _ t1 => s!"rd:{showRes r}:{t1}"
   | .closed t => s!"closed:{t}"
   | .rc r _ t1 n => s!"rc:{match r with | .ok => "ok" | .refused => "refused" | .timedOut => "timedout"}:{t1}:{n}"
 
